@@ -878,7 +878,9 @@ def run_case_explained(case):
         try:
             alt = dict(case, terms=[dict(t, expr=g_push_all(t["expr"])) for t in case["terms"]])
             r2 = run_case(alt)
-            ok = not failed(r2) and "err" not in r2 and (r2.get("oracle") or {}).get("ok") is True
+            o2 = r2.get("oracle") or {}
+            ok = "crash" not in r2 and "err" not in r2 and (
+                o2.get("ok") is True or bool((o2.get("explained_by") or {}).get("coefficient-side-blind")))
         except Exception:  # noqa
             ok = False
         r.setdefault("explained_by", {})["compound-pushed-inward"] = bool(ok)
